@@ -99,10 +99,10 @@ func aliasesSecretBytes(v ssa.Value, depth int) (bool, string) {
 
 func runC20(c *eng.Ctx, tier string) {
 	p := c.P
-	apply := p.Func(setecPkg, "fieldInfo.apply")
+	apply := anchor(p, setecPkg, "fieldInfo.apply")
 	fApply := p.Method(setecPkg, "Fields", "Apply")
 	fSecrets := p.Method(setecPkg, "Fields", "Secrets")
-	parse := p.Func(setecPkg, "parseFields")
+	parse := anchor(p, setecPkg, "parseFields")
 	if apply == nil || fApply == nil || fSecrets == nil || parse == nil {
 		c.Undecided("anchor", nil, 0, "setec.fieldInfo.apply / Fields.Apply / Fields.Secrets / parseFields", "anchors do not resolve")
 		return
@@ -248,7 +248,7 @@ func runC20(c *eng.Ctx, tier string) {
 		if !ok {
 			return
 		}
-		if cal := eng.Callee(&call.Call); cal != nil && (cal.Name() == "LookupSecret" || cal.Name() == "Secret" || cal.Name() == "lookupWatcher") && eng.IsNamed(cal.Signature.Recv().Type(), setecPkg, "Store") {
+		if cal := eng.Callee(&call.Call); cal != nil && (cal.Name() == "LookupSecret" || cal.Name() == "Secret" || cal == anchor(p, setecPkg, "(*Store).lookupWatcher")) && eng.IsNamed(cal.Signature.Recv().Type(), setecPkg, "Store") {
 			var nameP *ssa.Parameter
 			for _, prm := range apply.Params {
 				if isStringType(prm.Type()) {
@@ -348,7 +348,7 @@ func runC20(c *eng.Ctx, tier string) {
 	}
 
 	c20Types(c, parse, apply)
-	c20NoSharedState(c, []*ssa.Function{parse, apply, fApply, fSecrets, p.Func(setecPkg, "ParseFields"), p.Func(setecPkg, "checkUnmarshal")})
+	c20NoSharedState(c, []*ssa.Function{parse, apply, fApply, fSecrets, p.Func(setecPkg, "ParseFields"), anchor(p, setecPkg, "checkUnmarshal")})
 	c20Verb(c, parse)
 
 	// R-C20-5
@@ -356,7 +356,7 @@ func runC20(c *eng.Ctx, tier string) {
 		var names *ssa.Call
 		eng.Instrs(ns, func(in ssa.Instruction) {
 			if call, ok := in.(*ssa.Call); ok {
-				if cal := eng.Callee(&call.Call); cal != nil && cal.Name() == "secretNames" {
+				if cal := eng.Callee(&call.Call); cal != nil && cal == anchor(p, setecPkg, "StoreConfig.secretNames") {
 					names = call
 				}
 			}
@@ -384,7 +384,7 @@ func runC20(c *eng.Ctx, tier string) {
 		}
 		c.Check(applied, "R-C20-5", ns, ns.Pos(), "application of configured structs in NewStore", "every parsed struct is applied (full-range loop) before NewStore returns successfully", "")
 	}
-	if sn := p.Method(setecPkg, "StoreConfig", "secretNames"); sn != nil {
+	if sn := anchor(p, setecPkg, "StoreConfig.secretNames"); sn != nil {
 		merged := false
 		eng.Instrs(sn, func(in ssa.Instruction) {
 			args, ok := eng.BuiltinCall(in, "append")
